@@ -4,6 +4,8 @@ from ..gen import opgen, schemair as S
 from ..mon import exec_mon, instr_mon, sched
 from ..ref import refexec
 
+THOROUGH_SCALE = 8.0   # 16 shards; see DESIGN.md section 7
+
 RULE = (
     "requests of every outcome class (syntax error by truncation, validation error, missing required "
     "variable, unknown and ambiguous operation name, successful and partially failing executions with "
@@ -57,8 +59,8 @@ def make_requests(rng, case):
 def run(ctx):
     rng = ctx.rng("cases")
     quick = ctx.tier == "quick"
-    max_exh = 12 if quick else 150
-    n_samples = 3 if quick else 30
+    max_exh = 12 if quick else 100
+    n_samples = 3 if quick else 20
     log = sched.EventLog()
     for ci in range(ctx.n(6)):
         case = exec_mon.DualCase(rng, "c16:%d:%d:%d" % (ctx.seed, ctx.shard, ci), log=log,
@@ -72,6 +74,7 @@ def run(ctx):
             for cls, text, op, variables, doc in make_requests(rng, case):
                 n_instr = rng.randint(1, 3)
                 n_mw = rng.randint(0, 3)
+                partials = instr_mon.partial_spec(rng, n_instr)
                 expected_paths, ref = None, None
                 if cls == "executed":
                     ref = refexec.reference_result(case.ir, doc, op, variables, case.world)
@@ -81,11 +84,12 @@ def run(ctx):
                     expected_paths = ref[3].visited
                 base = {"schema_sdl": case.sdl, "world_seed": case.world.seed, "document": text,
                         "variables": variables, "class": cls, "instrumentations": n_instr, "middlewares": n_mw,
+                        "partial_members": [(h, pos) for _t, h, pos in partials],
                         "operation_name": op.name if op is not None else None}
                 configs = exec_mon.CONFIGS if cls == "executed" else rng.sample(exec_mon.CONFIGS, 3)
                 for config in configs:
                     def extra():
-                        return {"instrumentation": instr_mon.make_instrumentations(log, n_instr),
+                        return {"instrumentation": instr_mon.make_instrumentations(log, n_instr, partials),
                                 "middlewares": [instr_mon.make_middleware(log, i) for i in range(n_mw)]}
 
                     def run_with(ch, config=config, eager=False):
@@ -113,6 +117,9 @@ def run(ctx):
                             ctx.violation("no-result:%s:%s" % (config, out[0]), w, repr(out[1])[:300])
                             break
                         problems = instr_mon.check_stage_grammar(events, n_instr)
+                        if partials:
+                            ctx.count("runs_with_partial_members")
+                            problems += instr_mon.check_partials(events, partials)
                         stages = []
                         for e in events:
                             if e["ev"] == "stage" and e["tag"] == 0 and e["edge"] == "start":
